@@ -197,7 +197,27 @@ func TestProp(t *testing.T) {
 		})
 	}
 	if p.Gen != nil && !failed {
+		// Stop gracefully ahead of the shard's time budget: rapid's own early exit keeps a margin of five
+		// average iterations only, and one slow case (a guarded call being waited for on a loaded machine)
+		// would run into the test deadline. Iterations past the margin are no-ops and are not counted.
+		deadline, hasDeadline := t.Deadline()
+		budgetNoted := false
+		budgetMargin := 150 * time.Second
+		if hasDeadline {
+			if q := deadline.Sub(start) / 4; q < budgetMargin {
+				budgetMargin = q
+			}
+		}
 		rapid.Check(t, func(rt *rapid.T) {
+			if hasDeadline && time.Until(deadline) < budgetMargin {
+				if !budgetNoted {
+					budgetNoted = true
+					stats.Note("stopped generating at the time budget (inconclusive beyond the cases counted)")
+					fmt.Printf("NOTE property=%s shard=%d stopped generating at its time budget\n", id, shard)
+				}
+				stats.Count("iterations_skipped_at_time_budget", 1)
+				return
+			}
 			c := p.Gen(rt, ctx)
 			js, err := runOne(c)
 			if err != nil {
